@@ -357,7 +357,7 @@ def add_extra_records(rng, sc, path):
     keys = set()
     new = []
     for c in sc.chroms:
-        idx = [i for i, f in enumerate(body) if f[0] == c]
+        idx = [i for i, f in enumerate(body) if f[0] == c and not f[4].startswith("<")]
         if not idx:
             continue
         ns = len(body[idx[0]]) - 9
@@ -1420,6 +1420,12 @@ def run(ctx):
     specs.append(dict(seed=53, stream="plain", nvars=6, nsamples=1, nchrom=1, het=1.0, ngroups=1, cov=8, homop=0.0,
                       phi="synthetic", bmode="same", prephase=0.0, foreign=False, params=None, unrec=0.0, extras=False,
                       nomav=False, missing=0.3))
+    # corpus: symbolic-ALT records in front of records of every genotype class, coverage skewed by haplotype (the reader
+    # restricts every record to its own genotype: a restriction applied to the wrong record shows under skewed coverage)
+    for sd in (60, 65):
+        specs.append(dict(seed=sd, stream="plain", nvars=10, nsamples=1, nchrom=1, het=0.6, ngroups=2, cov=8, homop=0.0,
+                          phi="synthetic", bmode="same", prephase=0.0, foreign=False, params=None, unrec=0.0, extras=False,
+                          nomav=False, skew=True, symbolic=1.0))
     plan = [("history", ctx.n(3, 40)), ("rawtags", ctx.n(4, 50)), ("twice", ctx.n(2, 25)), ("mav", ctx.n(3, 30)),
             ("plain", ctx.n(14, 200)), ("prephased", ctx.n(12, 160)), ("unrecognised", ctx.n(4, 50)),
             ("bridged", ctx.n(4, 40)), ("noisy", ctx.n(4, 40)), ("params", ctx.n(4, 40)), ("foreign", ctx.n(3, 30))]
